@@ -464,8 +464,8 @@ func (g *c08xGen) leaf(literalOK bool) dsl.Expression {
 }
 
 // expr: leaf | -e | e as T | e op e, nesting depth <= d.  The operand of a unary minus is never a literal: the
-// expression parser folds `-literal` into the literal.  From depth 3 on only one operand of a binary operator is
-// deep (the other has depth <= 1), which keeps the number of trees in the ten thousands.
+// expression parser folds `-literal` into the literal.  From depth 3 on (depth 2 in the literal family) only
+// one operand of a binary operator is deep (the other has depth <= 1), which keeps the number of trees in the ten thousands.
 func (g *c08xGen) expr(d int, literalOK bool) dsl.Expression {
 	if d <= 0 {
 		return g.leaf(literalOK)
@@ -480,7 +480,7 @@ func (g *c08xGen) expr(d int, literalOK bool) dsl.Expression {
 	case 3:
 		op := dsl.BinaryOperator(verifChoose(g.label("op"), 5))
 		dl, dr := d-1, d-1
-		if d >= 3 {
+		if d >= 3 || (g.lits && d >= 2) {
 			if verifChoose(g.label("deep-side"), 2) == 0 {
 				dr = 1
 			} else {
